@@ -249,7 +249,17 @@ func injectDriver(a *Args) {
 		}
 		rec := httptest.NewRecorder()
 		requested := req.URL.String() // (taken before the handlers run: they share the request's URL value)
-		chains[chainKey{ic.Banner, ic.Shim, ic.Setup}].ServeHTTP(rec, req)
+		panicked := false
+		func() {
+			// a panic in the chain is an observation (in the agent it would end the process: the workers are bare goroutines)
+			defer func() {
+				if r := recover(); r != nil {
+					panicked = true
+					res.Note("case %d: the handler chain panicked: %v", ic.N, r)
+				}
+			}()
+			chains[chainKey{ic.Banner, ic.Shim, ic.Setup}].ServeHTTP(rec, req)
+		}()
 		got := rec.Body.Bytes()
 		orig := injectWire(ic)
 		if ic.Method == "HEAD" {
@@ -266,6 +276,9 @@ func injectDriver(a *Args) {
 			kind = "script"
 		case bytes.Contains(got, []byte(`id="inverting-proxy-frame"`)) && bytes.Contains(got, []byte(setups[ic.Setup].banner)):
 			kind = "frame"
+		}
+		if panicked {
+			kind = "panic"
 		}
 		h := rec.Header()
 		hdrsSame := h.Get("Content-Type") == injectCtype(ic.Ctype) && h.Get("Cache-Control") == "max-age=60" && h.Get("X-Orig") == "1" &&
